@@ -81,7 +81,7 @@ def classify_stderr(text):
 
 class ShardRun:
     def __init__(self, binary, args, workdir, nshards, env=None, stall_s=25.0, case_budget_s=None, log=print,
-                 shard_args=None):
+                 shard_args=None, max_failures=24, alone_timeout=20.0):
         self.binary = binary
         self.args = list(args)
         self.workdir = workdir
@@ -94,7 +94,8 @@ class ShardRun:
         self.summaries = []
         self.violations = []    # harness-reported (from .viol.jsonl)
         self.restarts = 0
-        self.max_failures = 24
+        self.max_failures = max_failures
+        self.alone_timeout = alone_timeout
         self.aborted_early = False
 
     def _base(self, i):
@@ -123,8 +124,10 @@ class ShardRun:
         except (OSError, ValueError):
             return None, None
 
-    def run_alone(self, idx, timeout=20.0):
+    def run_alone(self, idx, timeout=None):
         """Re-run one case alone in a fresh process.  Returns dict(status, rc, stderr, viols)."""
+        if timeout is None:
+            timeout = self.alone_timeout
         base = os.path.join(self.workdir, "alone%d" % idx)
         for suf in (".summary.json", ".progress", ".viol.jsonl", ".stderr"):
             try:
